@@ -11,39 +11,103 @@ harmless rewrite, now *proved* harmless) or breaks.
 
 Supported subset (anything else raises NotImplementedError, reported as a
 broken translator obligation):
-  statements : `a, b = e`, `x = e`, `x op= e`, `if c: <assignments/return/raise> [else: ...]`,
-               `return e`, `raise Exc(...)`, `assert ...` (ignored: assertions about argument shape)
-  expressions: int constants, names, tuples, `t[const]` on tuple-typed names,
-               `s.start` / `s.stop` on slice-typed names, + - * // % unary -,
-               & | ^ ~ << >>, comparisons (also chained: `a <= b <= c`), `a if c else b`,
-               min / max / abs, int(e), `sum(1 for i in range(N) if c)`,
-               calls of functions translated earlier in FUNCS
+  statements : `a, b = e`, `x = e`, `x op= e`, `if c: ... [elif/else: ...]` (branches may assign, return, raise,
+               break, continue, yield, loop), `return e`, `raise Exc(...)`, `pass`,
+               `assert c` (function NOT declared `exc:`: ignored - an assertion about the argument shape, i.e. a
+               precondition of the generated definition; function declared `exc:`: `.error "AssertionError"` when false),
+               `for <name | tuple of names> in <iterable>: ... [else: ...]`, `while c: ...`, `break`, `continue`,
+               `yield e` (generators), `self.<EFFECT>(ints...)` as a statement (see "effects").
+  expressions: int constants, names, tuples, `t[const]` on tuple-typed names, `s.start` / `s.stop` on slice-typed
+               names, `e.attr` on record-typed names (`rec:` types), + - * // % ** unary -, & | ^ ~ << >>, comparisons
+               (also chained: `a <= b <= c`), `a if c else b`, and / or / not in conditions, min / max of two
+               arguments, abs, int(e), len(list), `sum(1 for i in range(N) if c)`, `int(sqrt(e))` (see below),
+               `Enum.member` of an IntEnum class of the same file or imported by `from <module of the repo> import`
+               (the member's integer literal), calls of functions translated earlier in FUNCS (tuple results via
+               `let (a, b) := ...`), `f(d - s for s, d in zip(a, b))` for 3-tuples `a`, `b` (component-wise tuple).
+  iterables  : `range(n)`, `range(a, b)`, `range(a, b, <non-zero int literal>)`, `reversed(range(...))`, a tuple or
+               list literal, a list-typed parameter.
+  loops      : every loop body is emitted as a definition of its own, `<f>_loop<k>` (k = number of the loop in
+               source order; parameters: the variables of the enclosing scope it mentions, then the state, then the
+               element), so that the companion proofs can state what one iteration does.
+               A `for` loop is `List.foldl` over the list of the iterable's values; the fold state is the tuple of
+               the variables that exist before the loop and are assigned in its body (plus, when needed, the flags
+               `brk_ : Bool` - a `break`/`return`/`raise` was executed, the remaining elements are skipped - and
+               `ret_ : Option <result>` - the value returned / exception raised inside the loop).  Variables first
+               assigned inside a loop body are local to one iteration (reading them afterwards is unsupported), except
+               the loop variable of a `for` loop when it is read after the loop: it is part of the state and, when it
+               did not exist before, an empty iterable gives `.error "UnboundLocalError"` (functions declared `exc:`
+               only).  `for ... else` is supported (`else` runs when `brk_` is false).
+               A `while` loop is `pyWhile cond body fuel init`: at most `fuel` iterations (`fuel : Nat` is an extra,
+               last parameter of the generated definition); when the condition still holds after `fuel` iterations
+               the result is `.error "fuel"` (function must be declared `exc:`).  The companion theorems state the
+               fuel that suffices.  `while True:` without break/return in a generator (an infinite generator) is
+               observed through its first `fuel` iterations: the result is the list of values yielded by them.
+  generators : return type `gen:<elem>`: the result is the list of yielded values in order (`out_`, threaded through
+               loops as a state variable; `yield e` is `out_ ++ [e]`).
+  effects    : return type `calls:<n>` / `calls:<t1>,<t2>,...`: a method whose observable behaviour is the sequence of
+               its calls `self.<m>(a1, ..., an)` for `<m>` in EFFECTS (n integer arguments / arguments of the given
+               types, no keywords): the result is the list of argument tuples in call order.
+  bytes      : parameter type "bytes": a byte string as the list of its byte values (`List Int`); `len(b)`,
+               `b[i:j]` (= `pySlice b i j`, Python's clamping slice; also for other list-typed parameters).
   methods    : a FUNCS name `Class.method` selects a method of a class.
-               * `@classmethod`: the `cls` parameter is dropped.
+               * `@classmethod`: the `cls` parameter is dropped; `@property` / `@staticmethod` are transparent.
+               * decorators listed in GUARDS (`_if_not_closed`): the generated definition is the method body, i.e.
+                 the behaviour when the guard passes (the guard's own check - `raise OSError` when the view is
+                 closed or its allocation freed - is modelled separately, `Rig.C13.dead`).
                * parameter type "int" for `self`: a method of an `IntEnum` class, `self` is the member's
                  integer value; `self.prop` is the call of the (already translated) method `Class.prop`.
                * parameter type "obj:a,b" for `self`: an object whose integer attributes `self.a`,
                  `self.b` are the only state touched (state passing): `self.a` reads the parameter
                  `self_a`, `self.a = e` rebinds it and the function returns
-                 `(returned value, final self.a, final self.b)`.
-  exceptions : return type "exc_int" = `Except String Int`; `raise Exc(...)` is `.error "Exc"`,
-               `return e` is `.ok e`, and two raising expressions are allowed as the *returned* expression only:
+                 `(returned value, final self.a, final self.b)` - or just the final attributes for return type "none".
+                 `self.prop` for a property / `self.m()` for a method `Class.m` translated earlier with the same
+                 attributes (and not assigning any) is its call on the current attribute values.
+                 "obj:a,b;skip:c,d": the attributes `c`, `d` hold objects that are not modelled; the statements
+                 `self.c = ...` are dropped (and an `if` left empty by that), reading them is unsupported.
+                 A `:b` suffix (`closed:b`) declares a boolean attribute.
+               * "obj:" (no attributes): `self` is only used for EFFECT calls.
+  optionals  : parameter type "optint" (`int or None`) / "oslice" (a `slice` whose start, stop, step are
+               `int or None`): the only uses are the tests `x is None` / `x is not None` (also `s.start is None` ...)
+               as the condition of an `if` / `elif` / conditional expression / `and`-`or` chain; in the branch where
+               the value is known to be an int it is used as one.  `isinstance(s, slice)` is `True` for an "oslice".
+               `Cls(args)` as a *returned* value for a class `Cls` of the same file listed in CONSTRUCTORS: the tuple
+               of the listed integer arguments.
+  exceptions : return type "exc:<t>" = `Except String <t>` ("exc_int" = "exc:int"); `raise Exc(...)` is `.error "Exc"`,
+               `return e` is `.ok e`; raising expressions:
                * `Cls(e)` / `cls(e)` for an `IntEnum` class `Cls` of the same file (members read from the class
-                 body, all must be integer literals): `.ok e` if `e` is a member value, else `.error "ValueError"`;
-               * `D[key]` for a module-level dict `D` regenerated by another translator module
-                 (SUBSCRIPT_DICTS): the value, or `.error "KeyError"`.
-               A raising construct anywhere else, or in a function not declared "exc_int", is unsupported.
+                 body, all must be integer literals), as the *returned* expression: `.ok e` if `e` is a member
+                 value, else `.error "ValueError"`;
+               * `D[key]` for a module-level dict `D` regenerated by another translator module (SUBSCRIPT_DICTS),
+                 as the *returned* expression: the value, or `.error "KeyError"`;
+               * `int(sqrt(e))`: `pyIsqrt e` = `.error "ValueError"` (math domain error) for e < 0, else the integer
+                 square root (ASSUMPTION, as in Model/C19: `int(math.sqrt(k)) = isqrt(k)`, exact for k < 2^52);
+               * `l[i]` for a list-typed parameter `l`: `pyGet l i` = the element (negative `i` counts from the end)
+                 or `.error "IndexError"`.
+               The last two may occur anywhere in a statement (they are evaluated, in source order, in front of
+               it: `match <raising> with | .error e => <leave with e> | .ok t => <statement using t>`) and in the
+               condition of a `while` loop (the loop becomes `while True: if not <cond>: break; ...`, its
+               condition an `Except String Bool` evaluated with Python's short-circuit order), but not inside
+               conditional expressions or and/or chains elsewhere.  Inside a loop "leave" means: `brk_ := true`,
+               `ret_ := some (.error e)`.
+               A raising construct anywhere else, or in a function not declared `exc:`, is unsupported.
+  nested def : `def f(x, ...): return e` inside a function (no defaults / decorators, `e` must not read variables
+               that the enclosing function assigns): calls `f(a)` are expanded in place (`let x := a; e`).
 Semantics: Python ints are unbounded -> Lean `Int`; `//` = `Int.fdiv`,
-`%` = `Int.fmod` (Python's floor semantics), bit operations = Mathlib's
-two's-complement `Int.land/lor/xor/lnot`, shifts by `toNat` of the (non-negative) count.
+`%` = `Int.fmod` (Python's floor semantics; a ZERO divisor - Python: ZeroDivisionError - is NOT modelled: the companion
+theorems state `≠ 0` hypotheses wherever a divisor is not a non-zero literal), bit operations = Mathlib's
+two's-complement `Int.land/lor/xor/lnot`, shifts and `**` by `toNat` of the (non-negative) count / exponent (Python:
+ValueError for a negative shift count, a float for a negative exponent - not modelled, stated as hypotheses), truthiness: int `≠ 0`, list `≠ []`.
 """
 import ast
 import os
+import re
 
 from harness.gen_tables import HEADER
 
 # name -> (relative path, function name or Class.method, [param types], return type)
-# param types: "int", "tup2", "tup3", "slice", "obj:<attr>,<attr>"; return types: LEAN_TY keys
+# param types: "int", "tup2", "tup3", "slice", "optint", "oslice", "list:int", "list:tup2", "list:rec:<attr>,<attr>",
+#              "obj:<attr>,<attr>"
+# return types: "int", "bool", "tup2", "tup3", "optnn", "none", "exc:<t>", "gen:<t>", "calls:<n>"
 FUNCS = [
     ("rig/geometry.py", "to_xyz", ["tup2"], "tup3"),
     ("rig/geometry.py", "minimise_xyz", ["tup3"], "tup3"),
@@ -65,19 +129,99 @@ FUNCS = [
     ("rig/routing_table/entries.py", "Routes.opposite", ["int"], "exc_int"),
     ("rig/routing_table/entries.py", "Routes.core", ["int"], "exc_int"),
     ("rig/machine_control/machine_controller.py", "MachineController._get_next_nn_id", ["obj:_nn_id"], "int"),
+    # ---- second round -------------------------------------------------------------------------------
+    ("rig/links.py", "Links.to_vector", ["int"], "exc:tup2"),
+    ("rig/geometry.py", "shortest_mesh_path", ["tup3", "tup3"], "tup3"),
+    ("rig/geometry.py", "concentric_hexagons", ["int", "tup2"], "gen:tup2"),
+    ("rig/geometry.py", "standard_system_dimensions", ["int"], "exc:tup2"),
+    ("rig/geometry.py", "spinn5_eth_coords", ["int"] * 4, "gen:tup2"),
+    ("rig/routing_table/utils.py", "get_common_xs", ["list:rec:key,mask"], "int"),
+    ("rig/machine_control/scp_connection.py", "seqs", ["int"], "gen:int"),
+    ("rig/machine_control/machine_controller.py", "MachineController._send_ffs", ["obj:", "int", "int", "int"], "calls:7"),
+    ("rig/machine_control/machine_controller.py", "MachineController._send_ffcs", ["obj:", "int", "int", "int"], "calls:7"),
+    ("rig/machine_control/machine_controller.py", "MachineController._send_ffe", ["obj:", "int", "int", "int", "int"],
+     "calls:7"),
+    ("rig/machine_control/machine_controller.py", "SlicedMemoryIO.__init__",
+     ["obj:_start_address,_end_address,_offset,closed:b", "ignored", "int", "int"], "none"),
+    ("rig/machine_control/machine_controller.py", "SlicedMemoryIO.__len__",
+     ["obj:_start_address,_end_address,_offset"], "int"),
+    ("rig/machine_control/machine_controller.py", "SlicedMemoryIO.address",
+     ["obj:_start_address,_end_address,_offset"], "int"),
+    ("rig/machine_control/machine_controller.py", "SlicedMemoryIO.tell",
+     ["obj:_start_address,_end_address,_offset"], "int"),
+    ("rig/machine_control/machine_controller.py", "SlicedMemoryIO._bytes_available",
+     ["obj:_start_address,_end_address,_offset"], "int"),
+    ("rig/machine_control/machine_controller.py", "SlicedMemoryIO.seek",
+     ["obj:_start_address,_end_address,_offset", "int", "int"], "exc:none"),
+    ("rig/machine_control/machine_controller.py", "SlicedMemoryIO.__getitem__",
+     ["obj:_start_address,_end_address,_offset", "oslice"], "exc:tup2"),
+    ("rig/routing_table/ordered_covering.py", "_get_insertion_index", ["list:rec:key,mask", "int"], "exc:int"),
+    # `self.scp_data_length` is a caching property (its first read may query the machine); its value is an input here
+    ("rig/machine_control/machine_controller.py", "MachineController._send_ffd",
+     ["obj:scp_data_length", "int", "bytes", "int"], "exc:calls:int,int,int,int,int,int,int,bytes"),
+    ("rig/machine_control/regions.py", "RegionCoreTree.__init__",
+     ["obj:base_x,base_y,scale,shift,level;skip:locally_selected,subregions", "int", "int", "int"], "none"),
 ]
 
 # module-level tables of the source, already regenerated into Lean by other translator modules
 TABLES2D = {"SPINN5_ETH_OFFSET": ("Rig.Gen.Spinn5.ethOffset", "((0 : Int), (0 : Int))")}
 DICTS = {"SPINN5_FPGA_LINKS": "Rig.Gen.Spinn5.fpgaLinks"}
-# module-level dicts with Nat (enum member) values, subscripted (`D[key]`, KeyError when absent)
-SUBSCRIPT_DICTS = {"_link_direction_lookup": "Rig.Gen.Links.linkDirectionLookup"}
+# module-level dicts subscripted (`D[key]`, KeyError when absent): Lean association list, how a value is written
+SUBSCRIPT_DICTS = {"_link_direction_lookup": ("Rig.Gen.Links.linkDirectionLookup", "((v : Nat) : Int)", "int"),
+                   "_direction_link_lookup": ("Rig.Gen.Links.directionLinkLookup", "v", "tup2")}
+# SUBSCRIPT_DICTS whose keys are enum members (`Nat` in the generated tables): a negative key is absent
+NAT_KEYED = ("_direction_link_lookup",)
+# methods whose calls are the observable behaviour of a `calls:<n>` function
+EFFECTS = ("_send_scp",)
+# guard decorators: the generated definition is the behaviour when the guard passes
+GUARDS = ("_if_not_closed",)
+# classes whose construction may be returned: the integer arguments kept (by position)
+CONSTRUCTORS = {"SlicedMemoryIO": (1, 2)}
 
-LEAN_TY = {"int": "Int", "tup2": "Int × Int", "tup3": "Int × Int × Int", "slice": "Int × Int", "bool": "Bool",
-           "optnn": "Option (Nat × Nat)", "exc_int": "Except String Int"}
+BASE_TY = {"bytes": "List Int", "int": "Int", "tup2": "Int × Int", "tup3": "Int × Int × Int", "slice": "Int × Int", "bool": "Bool",
+           "optnn": "Option (Nat × Nat)", "none": "Unit", "optint": "Option Int",
+           "oslice": "Option Int × Option Int × Option Int", "list:int": "List Int", "list:tup2": "List (Int × Int)"}
 
+PRELUDE = '''/-! ### run-time support of the generated definitions (fixed text) -/
 
-LEAN_KEYWORDS = ("at", "from", "end", "open", "then", "do", "fun", "let", "in", "by", "have", "show", "with", "match")
+/-- Python `range(a, b)` -/
+def pyRange1 (a b : Int) : List Int := (List.range (b - a).toNat).map (fun (k : Nat) => a + (k : Int))
+
+/-- Python `range(a, b, c)` for a non-zero step `c` -/
+def pyRange (a b c : Int) : List Int :=
+  if c > 0 then (List.range ((b - a + c - 1) / c).toNat).map (fun (k : Nat) => a + c * (k : Int))
+  else if c < 0 then (List.range ((a - b - c - 1) / (-c)).toNat).map (fun (k : Nat) => a + c * (k : Int))
+  else []
+
+/-- Python `while cond(s): s = body(s)`, at most `fuel` iterations; `none` = the condition still holds -/
+def pyWhile {σ : Type} (cond : σ → Bool) (body : σ → σ) : Nat → σ → Option σ
+  | 0, s => if cond s then none else some s
+  | fuel + 1, s => if cond s then pyWhile cond body fuel (body s) else some s
+
+/-- Python `l[i]` on a list: a negative index counts from the end, `IndexError` outside -/
+def pyGet {α : Type} (l : List α) (i : Int) : Except String α :=
+  let j : Int := if i < 0 then i + (l.length : Int) else i
+  if j < 0 then Except.error "IndexError"
+  else match l[j.toNat]? with
+    | some v => Except.ok v
+    | none => Except.error "IndexError"
+
+/-- Python `l[a:b]` on a list / bytes: negative indices count from the end, both are clamped to the list -/
+def pySlice {α : Type} (l : List α) (a b : Int) : List α :=
+  let n : Int := (l.length : Int)
+  let a' : Int := if a < 0 then max (a + n) 0 else min a n
+  let b' : Int := if b < 0 then max (b + n) 0 else min b n
+  (l.drop a'.toNat).take (b' - a').toNat
+
+/-- Python `int(math.sqrt(n))` (integer square root, exact below 2^52; `ValueError: math domain error` for n < 0) -/
+def pyIsqrt (n : Int) : Except String Int :=
+  if n < 0 then Except.error "ValueError" else Except.ok ((Nat.sqrt n.toNat : Nat) : Int)
+
+'''
+
+LEAN_KEYWORDS = ("at", "from", "end", "open", "then", "do", "fun", "let", "in", "by", "have", "show", "with", "match",
+                 "bytes", "if", "else", "where", "instance", "structure", "class", "def", "theorem", "namespace",
+                 "section", "variable", "import", "mutual", "prefix", "infix", "notation", "macro", "syntax", "deriving")
 
 
 def ident(name):
@@ -86,25 +230,135 @@ def ident(name):
 
 
 def lean_name(qual):
-    """`_get_generality` -> get_generality, `Routes.is_link` -> Routes_is_link"""
-    return "_".join(part.lstrip("_") for part in qual.split("."))
+    """`_get_generality` -> get_generality, `Routes.is_link` -> Routes_is_link, `C.__len__` -> C_len"""
+    return "_".join(part.strip("_") for part in qual.split("."))
+
+
+def lean_ty(t):
+    """Lean type of a declared (parameter / result / element) type"""
+    if t == "exc_int":
+        t = "exc:int"
+    if t.startswith("exc:"):
+        return "Except String " + paren(lean_ty(t[4:]))
+    if t.startswith("gen:"):
+        return "List " + paren(lean_ty(t[4:]))
+    if t.startswith("calls:"):
+        return "List (" + prod(calls_types(t)) + ")"
+    if t.startswith("list:rec:"):
+        return "List (" + " × ".join(["Int"] * len(t[9:].split(","))) + ")"
+    return BASE_TY[t]
+
+
+def calls_types(t):
+    """`calls:7` / `calls:int,int,bytes`: Lean types of the arguments of the recorded call"""
+    spec = t[6:]
+    if spec.isdigit():
+        return ["Int"] * int(spec)
+    return [BASE_TY[x] for x in spec.split(",")]
+
+
+def paren(t):
+    return "(%s)" % t if " " in t else t
+
+
+def prod(ts):
+    """product type of the component types `ts` (right nested)"""
+    return " × ".join("(%s)" % t if " × " in t and i < len(ts) - 1 else t for i, t in enumerate(ts))
+
+
+def proj(base, i, n):
+    """component i of the n-tuple `base`"""
+    if n == 1:
+        return base
+    return base + ".2" * i + (".1" if i < n - 1 else "")
+
+
+def components(t):
+    """top-level components of a product type string"""
+    out, depth, cur = [], 0, ""
+    for tok in t.replace("(", " ( ").replace(")", " ) ").split():
+        if tok == "(":
+            depth += 1
+        if tok == ")":
+            depth -= 1
+        if tok == "×" and depth == 0:
+            out.append(cur.strip())
+            cur = ""
+        else:
+            cur += " " + tok
+    out.append(cur.strip())
+    res = []
+    for c in out:
+        c = c.replace("( ", "(").replace(" )", ")")
+        if c.startswith("(") and c.endswith(")") and _balanced(c[1:-1]):
+            c = c[1:-1]
+        res.append(c)
+    return res
+
+
+def _balanced(s):
+    d = 0
+    for ch in s:
+        d += ch == "("
+        d -= ch == ")"
+        if d < 0:
+            return False
+    return d == 0
+
+
+class Loop(object):
+    """one enclosing loop: the components of its fold state"""
+    def __init__(self, comps):
+        self.comps = comps            # names, possibly starting with "brk_", "ret_"
+
+    def tuple(self, brk="false", ret="none"):
+        vals = [brk if c == "brk_" else ret if c == "ret_" else c for c in self.comps]
+        return vals[0] if len(vals) == 1 else "(" + ", ".join(vals) + ")"
+
+
+def walk_no_nested_loops(stmts):
+    """all nodes of stmts that do not lie inside a nested loop (for `break` / `continue` of THIS loop)"""
+    stack = list(stmts)
+    while stack:
+        n = stack.pop()
+        yield n
+        if isinstance(n, (ast.For, ast.While)):
+            continue
+        stack.extend(ast.iter_child_nodes(n))
 
 
 class Tr(object):
-    def __init__(self, types, cls=None, enums=None, done=None, attrs=()):
-        self.types = dict(types)      # name -> type
+    def __init__(self, types, cls=None, enums=None, done=None, attrs=(), recs=None):
+        self.types = dict(types)      # parameter name -> declared kind
         self.cls = cls                # name of the enclosing class (methods) or None
-        self.enums = enums or {}      # IntEnum classes of the file: name -> [member values]
-        self.done = done or {}        # qualified name -> return type, of the functions translated so far
+        self.enums = enums or {}      # IntEnum classes visible in the file: name -> {member: value}
+        self.local_enums = {}         # IntEnum classes defined in the file itself: name -> [values]
+        self.done = done or {}        # qualified name -> (return type, param types) of the functions translated so far
         self.attrs = list(attrs)      # integer attributes of `self` passed as state ("obj:..." parameter)
+        self.recs = recs or {}        # record-typed parameter -> attribute names
+        self.lty = {}                 # variables in scope -> Lean type
+        self.narrow = {}              # ast.dump of an optional expression -> Lean name of its int value
+        self.loops = []               # enclosing loops
+        self.pending = []             # raising sub-expressions hoisted in front of the current statement
+        self.cond_depth = 0           # > 0 inside conditionally evaluated sub-expressions
+        self.ntmp = 0
+        self.uses_fuel = False
+        self.fn = None
+        self.nloops = 0
+        self.localfns = {}            # nested `def f(x): return e` -> (parameter names, e)
+        self.tmp_ty = {}              # hoisted temporaries -> Lean type
+        self.rec_elems = {}           # list-of-records parameter -> attribute names
+        self.aux = []                 # definitions of loop bodies, emitted in front of the function
 
+    # ---- helpers -------------------------------------------------------------
     def callee(self, qual):
         """Lean name of an already translated function (definition order = FUNCS order)"""
         if qual not in self.done:
             raise NotImplementedError("call of %s, which is not translated (earlier in FUNCS)" % qual)
-        if self.done[qual] not in ("int", "bool", "tup2", "tup3"):
-            raise NotImplementedError("call of %s : %s inside an expression" % (qual, self.done[qual]))
-        return lean_name(qual), self.done[qual]
+        ret = self.done[qual][0]
+        if ret not in ("int", "bool", "tup2", "tup3"):
+            raise NotImplementedError("call of %s : %s inside an expression" % (qual, ret))
+        return lean_name(qual), ret
 
     def self_attr(self, n):
         """`self.x`: ("state", lean name) / ("prop", lean call, type) / None"""
@@ -112,16 +366,181 @@ class Tr(object):
                 and "self" in self.types):
             return None
         if self.types["self"] == "obj":
-            if n.attr not in self.attrs:
-                raise NotImplementedError("attribute self.%s is not declared as state" % n.attr)
-            return ("state", "self_" + n.attr)
+            if n.attr in self.attrs:
+                return ("state", "self_" + n.attr)
+            qual = "%s.%s" % (self.cls, n.attr)
+            if qual in self.done and self.done[qual][1][:1] == [self.obj_spec] \
+                    and len(self.done[qual][1]) == 1 and not self.done[qual][2] and self.done[qual][0] in ("int", "bool"):
+                # a property translated earlier that reads the same attributes and assigns none:
+                # its value is the first component of the state-passing result
+                return ("prop", "(%s %s).1" % (lean_name(qual), " ".join("self_" + a for a in self.attrs)),
+                        self.done[qual][0])
+            raise NotImplementedError("attribute self.%s is not declared as state" % n.attr)
         if self.types["self"] == "int" and self.cls is not None:
             f, t = self.callee(self.cls + "." + n.attr)
             return ("prop", "(%s self)" % f, t)
         return None
 
+    def self_method_call(self, n):
+        """`self.m()` for a translated method of the same object reading the same attributes"""
+        if not (isinstance(n, ast.Call) and isinstance(n.func, ast.Attribute) and isinstance(n.func.value, ast.Name)
+                and n.func.value.id == "self" and self.types.get("self") == "obj" and not n.args and not n.keywords):
+            return None
+        qual = "%s.%s" % (self.cls, n.func.attr)
+        d = self.done.get(qual)
+        if d is None or d[1] != [self.obj_spec] or d[2] or d[0] not in ("int", "bool"):
+            return None
+        return "(%s %s).1" % (lean_name(qual), " ".join("self_" + a for a in self.attrs)), d[0]
+
+    def tmp(self):
+        self.ntmp += 1
+        return "t%d_" % self.ntmp
+
+    def is_exc(self):
+        return self.ret.startswith("exc:")
+
+    def base(self):
+        return self.ret[4:] if self.is_exc() else self.ret
+
+    def is_stream(self):
+        """a generator / a function observed through its effect calls: the result is the list `out_`"""
+        return self.base().startswith(("gen:", "calls:"))
+
+    def enum_member(self, n):
+        """`Enum.member` -> int value or None"""
+        if isinstance(n, ast.Attribute) and isinstance(n.value, ast.Name) and n.value.id in self.enums \
+                and n.value.id not in self.lty:
+            members = self.enums[n.value.id]
+            if n.attr not in members:
+                raise NotImplementedError("%s has no member %s" % (n.value.id, n.attr))
+            return members[n.attr]
+        return None
+
+    def none_test(self, n):
+        """`x is None` / `x is not None` on an optional -> (optional Lean expr, key, is_none) or None"""
+        if not (isinstance(n, ast.Compare) and len(n.ops) == 1 and isinstance(n.ops[0], (ast.Is, ast.IsNot))
+                and isinstance(n.comparators[0], ast.Constant) and n.comparators[0].value is None):
+            return None
+        o = self.opt_expr(n.left)
+        if o is None:
+            raise NotImplementedError("`is None` test of " + ast.dump(n.left)[:60])
+        return o[0], o[1], isinstance(n.ops[0], ast.Is)
+
+    def opt_expr(self, n):
+        """an optional-int expression: (Lean expr : Option Int, key, narrowed name) or None"""
+        if isinstance(n, ast.Name) and self.types.get(n.id) == "optint":
+            return ident(n.id), ast.dump(n), ident(n.id) + "_v"
+        if isinstance(n, ast.Attribute) and isinstance(n.value, ast.Name) and self.types.get(n.value.id) == "oslice" \
+                and n.attr in ("start", "stop", "step"):
+            i = ("start", "stop", "step").index(n.attr)
+            return proj(ident(n.value.id), i, 3), ast.dump(n), "%s_%s" % (ident(n.value.id), n.attr)
+        return None
+
+    # ---- types ----------------------------------------------------------------
+    def tyof(self, n):
+        """Lean type of the value of an expression (only as precise as the loop-state annotations need)"""
+        if isinstance(n, ast.Name):
+            return self.lty.get(ident(n.id), "Int")
+        if isinstance(n, ast.Constant) and isinstance(n.value, bool):
+            return "Bool"
+        sa_ = self.self_attr(n) if isinstance(n, ast.Attribute) and self.types.get("self") == "obj" else None
+        if sa_ is not None and sa_[0] == "state":
+            return self.lty[sa_[1]]
+        if isinstance(n, (ast.Tuple,)):
+            return prod([self.tyof(x) for x in n.elts])
+        if isinstance(n, ast.List):
+            return "List " + paren(self.tyof(n.elts[0])) if n.elts else "List Int"
+        if isinstance(n, ast.Subscript) and isinstance(n.value, ast.Name) and isinstance(n.slice, ast.Constant):
+            cs = components(self.lty.get(ident(n.value.id), "Int"))
+            i = n.slice.value
+            if isinstance(i, int) and 0 <= i < len(cs):
+                return cs[i]
+        if (isinstance(n, ast.Subscript) and isinstance(n.value, ast.Subscript)
+                and isinstance(n.value.value, ast.Name) and n.value.value.id in TABLES2D):
+            return "Int × Int"
+        if self.is_list_index(n):
+            return self.elem_ty(n.value.id)
+        if (isinstance(n, ast.Subscript) and isinstance(n.value, ast.Name) and isinstance(n.slice, ast.Slice)
+                and self.lty.get(ident(n.value.id), "").startswith("List ")):
+            return self.lty[ident(n.value.id)]
+        if isinstance(n, ast.IfExp):
+            return self.tyof(n.body)
+        if isinstance(n, (ast.Compare, ast.BoolOp)) or (isinstance(n, ast.UnaryOp) and isinstance(n.op, ast.Not)):
+            return "Bool"
+        if isinstance(n, ast.Call) and isinstance(n.func, ast.Name) and n.func.id in self.done:
+            return lean_ty(self.done[n.func.id][0])
+        if isinstance(n, ast.Call) and isinstance(n.func, ast.Name) and n.func.id == "isinstance":
+            return "Bool"
+        return "Int"
+
+    def raising(self, lean_exc_expr):
+        """a raising sub-expression (`Except String _`): hoisted in front of the current statement / condition leaf;
+        returns the name of its value"""
+        if not self.is_exc() or self.cond_depth:
+            raise NotImplementedError("raising expression in a conditionally evaluated position / "
+                                      "function not declared exc:")
+        t = self.tmp()
+        self.pending.append((t, lean_exc_expr))
+        return t
+
+    def is_list_index(self, n):
+        return (isinstance(n, ast.Subscript) and isinstance(n.value, ast.Name)
+                and self.lty.get(ident(n.value.id), "").startswith("List ") and not isinstance(n.slice, ast.Slice))
+
+    def has_raising(self, nodes):
+        """does any of the AST nodes contain a construct translated as a raising expression?"""
+        for x in nodes:
+            for n in ast.walk(x):
+                if self.is_list_index(n):
+                    return True
+                if isinstance(n, ast.Call) and isinstance(n.func, ast.Name) and n.func.id == "sqrt":
+                    return True
+                if isinstance(n, ast.Call) and isinstance(n.func, ast.Name) and n.func.id in self.localfns \
+                        and self.has_raising([self.localfns[n.func.id][1]]):
+                    return True
+        return False
+
+    def elem_ty(self, name):
+        t = self.lty[ident(name)][5:]
+        return t[1:-1] if t.startswith("(") and t.endswith(")") else t
+
     # ---- expressions --------------------------------------------------------
     def e(self, n):
+        if (isinstance(n, ast.Subscript) and isinstance(n.value, ast.Name) and isinstance(n.slice, ast.Slice)
+                and self.lty.get(ident(n.value.id), "").startswith("List ")):
+            # l[a:b] (no step): Python's clamping slice
+            if n.slice.step is not None:
+                raise NotImplementedError("slice with a step")
+            l = ident(n.value.id)
+            a = self.e(n.slice.lower) if n.slice.lower is not None else "(0 : Int)"
+            b = self.e(n.slice.upper) if n.slice.upper is not None else "((%s).length : Int)" % l
+            return "(pySlice %s %s %s)" % (l, a, b)
+        if self.is_list_index(n):
+            # l[i]: IndexError outside the list, negative indices count from the end
+            t = self.raising("(pyGet %s %s)" % (ident(n.value.id), self.e(n.slice)))
+            self.tmp_ty[t] = self.elem_ty(n.value.id)
+            if ident(n.value.id) in self.rec_elems:
+                self.recs[t] = self.rec_elems[ident(n.value.id)]
+            return t
+        if isinstance(n, ast.Call) and isinstance(n.func, ast.Name) and n.func.id in self.localfns \
+                and n.func.id not in self.lty:
+            params, body = self.localfns[n.func.id]
+            if len(params) != len(n.args) or n.keywords:
+                raise NotImplementedError("call of the local function " + n.func.id)
+            args = [self.e(a) for a in n.args]
+            saved_l, saved_r = dict(self.lty), dict(self.recs)
+            binds = ""
+            for pn, a, an in zip(params, args, n.args):
+                ty = self.tmp_ty.get(a, self.tyof(an))
+                self.lty[ident(pn)] = ty
+                if a in self.recs:
+                    self.recs[ident(pn)] = self.recs[a]
+                binds += "let %s : %s := %s; " % (ident(pn), ty, a)
+            r = "(%s%s)" % (binds, self.e(body))
+            self.lty, self.recs = saved_l, saved_r
+            return r
+        if isinstance(n, ast.Constant) and isinstance(n.value, bool):
+            return "true" if n.value else "false"
         if isinstance(n, ast.Constant) and isinstance(n.value, int) and not isinstance(n.value, bool):
             return "(%d : Int)" % n.value if n.value >= 0 else "(-%d : Int)" % -n.value
         if isinstance(n, ast.Name):
@@ -129,18 +548,27 @@ class Tr(object):
                 raise NotImplementedError("name " + n.id)
             if self.types.get(n.id) == "obj":
                 raise NotImplementedError("the object `%s` itself used as a value" % n.id)
+            if self.types.get(n.id) in ("optint", "oslice") and ident(n.id) in self.lty \
+                    and self.lty[ident(n.id)].startswith("Option"):
+                if ast.dump(n) in self.narrow:
+                    return self.narrow[ast.dump(n)]
+                raise NotImplementedError("optional `%s` used as a value without an `is None` test" % n.id)
+            if ident(n.id) not in self.lty:
+                raise NotImplementedError("name `%s` is not (definitely) bound here" % n.id)
             return ident(n.id)
         if isinstance(n, ast.Tuple):
             return "(" + ", ".join(self.e(x) for x in n.elts) + ")"
-        if isinstance(n, ast.Subscript) and isinstance(n.value, ast.Name) and isinstance(n.slice, ast.Constant):
-            t = self.types.get(n.value.id)
+        if isinstance(n, ast.Subscript) and isinstance(n.value, ast.Name) and isinstance(n.slice, ast.Constant) \
+                and n.value.id not in TABLES2D and n.value.id not in SUBSCRIPT_DICTS:
+            nm = ident(n.value.id)
+            if nm not in self.lty:
+                raise NotImplementedError("name `%s` is not (definitely) bound here" % n.value.id)
+            cs = components(self.lty[nm])
             i = n.slice.value
-            arity = {"tup2": 2, "tup3": 3}.get(t)
-            if arity is None or not (0 <= i < arity):
-                raise NotImplementedError("subscript of %s : %s" % (n.value.id, t))
-            base = n.value.id
-            proj = ".2" * i + (".1" if i < arity - 1 else "")
-            return "%s%s" % (base, proj)
+            if len(cs) < 2 or not isinstance(i, int) or not (0 <= i < len(cs)) or self.lty[nm].startswith("List") \
+                    or self.lty[nm].startswith("Option"):
+                raise NotImplementedError("subscript of %s : %s" % (n.value.id, self.lty[nm]))
+            return proj(nm, i, len(cs))
         # TABLE[a][b]
         if (isinstance(n, ast.Subscript) and isinstance(n.value, ast.Subscript)
                 and isinstance(n.value.value, ast.Name) and n.value.value.id in TABLES2D):
@@ -155,7 +583,12 @@ class Tr(object):
             f, t = self.callee(n.func.id)
             if t == "bool":
                 raise NotImplementedError("boolean call %s used as an integer" % n.func.id)
-            return "(%s %s)" % (f, " ".join(self.e(a) for a in n.args))
+            if n.keywords:
+                raise NotImplementedError("keyword arguments")
+            return "(%s %s)" % (f, " ".join(self.call_arg(a, pt) for a, pt in zip(n.args, self.done[n.func.id][1])))
+        v = self.enum_member(n)
+        if v is not None:
+            return "(%d : Int)" % v
         sa = self.self_attr(n)
         if sa is not None:
             if sa[0] == "state":
@@ -163,14 +596,30 @@ class Tr(object):
             if sa[2] == "bool":
                 raise NotImplementedError("boolean property self.%s used as an integer" % n.attr)
             return sa[1]
+        sm = self.self_method_call(n)
+        if sm is not None and sm[1] == "int":
+            return sm[0]
+        o = self.opt_expr(n)
+        if o is not None:
+            if o[1] in self.narrow:
+                return self.narrow[o[1]]
+            raise NotImplementedError("optional used as a value without an `is None` test: " + ast.dump(n)[:60])
         if isinstance(n, ast.Attribute) and isinstance(n.value, ast.Name) and self.types.get(n.value.id) == "slice":
             if n.attr == "start":
                 return n.value.id + ".1"
             if n.attr == "stop":
                 return n.value.id + ".2"
+        if isinstance(n, ast.Attribute) and isinstance(n.value, ast.Name) and ident(n.value.id) in self.recs \
+                and ident(n.value.id) in self.lty:
+            fields = self.recs[ident(n.value.id)]
+            if n.attr not in fields:
+                raise NotImplementedError("attribute %s.%s is not declared" % (n.value.id, n.attr))
+            return proj(ident(n.value.id), fields.index(n.attr), len(fields))
         if isinstance(n, ast.UnaryOp):
             if isinstance(n.op, ast.USub):
                 return "(-%s)" % self.e(n.operand)
+            if isinstance(n.op, ast.UAdd):
+                return self.e(n.operand)
             if isinstance(n.op, ast.Invert):
                 return "(Int.lnot %s)" % self.e(n.operand)
             if isinstance(n.op, ast.Not):
@@ -190,20 +639,31 @@ class Tr(object):
                 return "(Int.lor %s %s)" % (a, b)
             if op is ast.BitXor:
                 return "(Int.xor %s %s)" % (a, b)
+            if op is ast.Pow:
+                return "(%s ^ (%s).toNat)" % (a, b)
             if op is ast.LShift:
                 return "(%s <<< (%s).toNat)" % (a, b)
             if op is ast.RShift:
                 return "(%s >>> (%s).toNat)" % (a, b)
         if isinstance(n, ast.IfExp):
-            return "(if %s then %s else %s)" % (self.p(n.test), self.e(n.body), self.e(n.orelse))
+            return self.ite(n.test, lambda: self.e(n.body), lambda: self.e(n.orelse))
         if isinstance(n, ast.Call) and isinstance(n.func, ast.Name):
             f = n.func.id
-            if f in ("min", "max") and len(n.args) == 2:
+            if f in ("min", "max") and len(n.args) == 2 and not n.keywords:
                 return "(%s %s %s)" % (f, self.e(n.args[0]), self.e(n.args[1]))
+            # int(sqrt(e)): raising, hoisted in front of the statement
+            if (f == "int" and len(n.args) == 1 and isinstance(n.args[0], ast.Call)
+                    and isinstance(n.args[0].func, ast.Name) and n.args[0].func.id == "sqrt"
+                    and len(n.args[0].args) == 1 and self.imports_sqrt):
+                return self.raising("(pyIsqrt %s)" % self.e(n.args[0].args[0]))
             if f == "int" and len(n.args) == 1:
+                if self.tyof(n.args[0]) != "Int" or isinstance(n.args[0], ast.Call):
+                    raise NotImplementedError("int() of " + ast.dump(n.args[0])[:60])
                 return self.e(n.args[0])
             if f == "abs" and len(n.args) == 1:
                 return "((Int.natAbs %s : Nat) : Int)" % self.e(n.args[0])
+            if f == "len" and len(n.args) == 1 and self.tyof(n.args[0]).startswith("List"):
+                return "((%s).length : Int)" % self.e(n.args[0])
             if f == "sum" and len(n.args) == 1 and isinstance(n.args[0], ast.GeneratorExp):
                 g = n.args[0]
                 c = g.generators[0]
@@ -212,16 +672,78 @@ class Tr(object):
                         and len(c.iter.args) == 1 and isinstance(c.iter.args[0], ast.Constant)
                         and len(c.ifs) == 1 and isinstance(c.target, ast.Name)):
                     var = c.target.id
+                    saved = dict(self.lty)
+                    self.lty[var] = "Int"
                     cond = self.p(c.ifs[0])
+                    self.lty = saved
                     return "(((List.range %d).countP (fun (%s_n : Nat) => let %s : Int := (%s_n : Int); decide (%s)) : Nat) : Int)" % (
                         c.iter.args[0].value, var, var, var, cond)
         if isinstance(n, ast.Compare) or isinstance(n, ast.BoolOp):
             return "(decide %s)" % self.p(n)
         raise NotImplementedError(ast.dump(n)[:120])
 
+    def call_arg(self, a, ptype):
+        """an argument of a call of a translated function; `(d - s for s, d in zip(x, y))` for a 3-tuple parameter"""
+        if isinstance(a, ast.GeneratorExp):
+            g = a.generators
+            if (ptype == "tup3" and len(g) == 1 and not g[0].ifs and isinstance(g[0].iter, ast.Call)
+                    and isinstance(g[0].iter.func, ast.Name) and g[0].iter.func.id == "zip"
+                    and len(g[0].iter.args) == 2 and all(isinstance(z, ast.Name) for z in g[0].iter.args)
+                    and all(self.lty.get(ident(z.id)) == "Int × Int × Int" for z in g[0].iter.args)
+                    and isinstance(g[0].target, ast.Tuple) and len(g[0].target.elts) == 2
+                    and all(isinstance(x, ast.Name) for x in g[0].target.elts)):
+                za, zb = [ident(z.id) for z in g[0].iter.args]
+                na, nb = [ident(x.id) for x in g[0].target.elts]
+                comps = []
+                saved = dict(self.lty)
+                self.lty[na] = self.lty[nb] = "Int"
+                body = self.e(a.elt)
+                self.lty = saved
+                for i in range(3):
+                    comps.append("(let %s : Int := %s; let %s : Int := %s; %s)" % (
+                        na, proj(za, i, 3), nb, proj(zb, i, 3), body))
+                return "(" + ", ".join(comps) + ")"
+            raise NotImplementedError("generator expression argument")
+        return self.e(a)
+
+    def ite(self, test, then, orelse):
+        """conditional expression / statement head with optional narrowing: (if c then A else B) or a match"""
+        nt = self.none_test(test)
+        self.cond_depth += 1
+        try:
+            if nt is not None:
+                oexpr, key, is_none = nt
+                name = self.opt_expr(test.left)[2]
+                saved = dict(self.narrow)
+                if is_none:
+                    a = then()
+                    self.narrow[key] = name
+                    b = orelse()
+                    self.narrow = saved
+                    return "(match %s with | none => %s | some %s => %s)" % (oexpr, a, name, b)
+                self.narrow[key] = name
+                a = then()
+                self.narrow = saved
+                b = orelse()
+                return "(match %s with | some %s => %s | none => %s)" % (oexpr, name, a, b)
+            c = self.p(test)
+            return "(if %s then %s else %s)" % (c, then(), orelse())
+        finally:
+            self.cond_depth -= 1
+
     def p(self, n):
         """a Python expression used as a condition -> Lean Prop"""
         if isinstance(n, ast.Compare):
+            if any(isinstance(o, (ast.Is, ast.IsNot)) for o in n.ops):
+                nt = self.none_test(n)
+                if nt is None:
+                    raise NotImplementedError("`is` comparison")
+                return "(%s %s none)" % (nt[0], "=" if nt[2] else "≠")
+            # `opt == e` / `opt != e` for an optional that is not known to be an int here (None == 1 is False)
+            if len(n.ops) == 1 and isinstance(n.ops[0], (ast.Eq, ast.NotEq)):
+                o = self.opt_expr(n.left)
+                if o is not None and o[1] not in self.narrow:
+                    return "(%s %s some %s)" % (o[0], "=" if isinstance(n.ops[0], ast.Eq) else "≠", self.e(n.comparators[0]))
             # a op b op c  =  (a op b) and (b op c); operands are pure, so evaluating b twice is harmless
             ops = {ast.Lt: "<", ast.LtE: "≤", ast.Gt: ">", ast.GtE: "≥", ast.Eq: "=", ast.NotEq: "≠"}
             terms = [self.e(n.left)] + [self.e(c) for c in n.comparators]
@@ -232,23 +754,105 @@ class Tr(object):
                 parts.append("(%s %s %s)" % (terms[i], ops[type(o)], terms[i + 1]))
             return parts[0] if len(parts) == 1 else "(" + " ∧ ".join(parts) + ")"
         # boolean property of `self` / call of a translated boolean function
-        sa = self.self_attr(n)
+        sa = self.self_attr(n) if isinstance(n, ast.Attribute) else None
         if sa is not None and sa[0] == "prop" and sa[2] == "bool":
             return "(%s = true)" % sa[1]
         if isinstance(n, ast.Call) and isinstance(n.func, ast.Name) and n.func.id in [f[1] for f in FUNCS]:
             f, t = self.callee(n.func.id)
             if t == "bool":
                 return "((%s %s) = true)" % (f, " ".join(self.e(a) for a in n.args))
+        if (isinstance(n, ast.Call) and isinstance(n.func, ast.Name) and n.func.id == "isinstance" and len(n.args) == 2
+                and isinstance(n.args[0], ast.Name) and self.types.get(n.args[0].id) == "oslice"
+                and isinstance(n.args[1], ast.Name) and n.args[1].id == "slice"):
+            return "True"
         if isinstance(n, ast.BoolOp):
+            # `a and b` / `a or b`: later operands are evaluated conditionally (no raising construct allowed there)
             j = " ∧ " if isinstance(n.op, ast.And) else " ∨ "
-            return "(" + j.join(self.p(v) for v in n.values) + ")"
+            self.cond_depth += 1
+            try:
+                parts = [self.p(v) for v in n.values]
+            finally:
+                self.cond_depth -= 1
+            return "(" + j.join(parts) + ")"
         if isinstance(n, ast.UnaryOp) and isinstance(n.op, ast.Not):
             return "(¬ %s)" % self.p(n.operand)
-        # truthiness of an integer
+        if isinstance(n, ast.Constant) and n.value is True:
+            return "True"
+        if isinstance(n, ast.Constant) and n.value is False:
+            return "False"
+        # truthiness
+        t = self.tyof(n)
+        if t == "Bool":
+            return "(%s = true)" % self.e(n)
+        if t.startswith("List"):
+            return "(%s ≠ [])" % self.e(n)
+        if t != "Int":
+            raise NotImplementedError("truthiness of a value of type " + t)
         return "(%s ≠ 0)" % self.e(n)
 
     def b(self, n):
         return "(decide %s)" % self.p(n)
+
+    def pexc(self, n):
+        """a condition with raising sub-expressions -> Lean `Except String Bool`, evaluated left to right with
+        Python's short-circuit rules"""
+        if isinstance(n, ast.BoolOp):
+            stop = "false" if isinstance(n.op, ast.And) else "true"
+            parts = [self.pexc(v) for v in n.values]
+            text = parts[-1]
+            for q in reversed(parts[:-1]):
+                text = "(match %s with | Except.ok %s => Except.ok %s | Except.ok _ => %s | Except.error e_ => Except.error e_)" % (
+                    q, stop, stop, text)
+            return text
+        if isinstance(n, ast.UnaryOp) and isinstance(n.op, ast.Not):
+            return "(match %s with | Except.ok v_ => Except.ok (!v_) | Except.error e_ => Except.error e_)" % self.pexc(n.operand)
+        saved, self.pending = self.pending, []
+        depth, self.cond_depth = self.cond_depth, 0
+        try:
+            c = self.b(n)
+        finally:
+            self.cond_depth = depth
+        pend, self.pending = self.pending, saved
+        text = "(Except.ok %s)" % c
+        for t, ex in reversed(pend):
+            text = "(match %s with | Except.error e_ => Except.error e_ | Except.ok %s => %s)" % (ex, t, text)
+        return text
+
+    # ---- iterables -----------------------------------------------------------
+    def iter_expr(self, n):
+        """an iterable -> (Lean list expression, element type)"""
+        if isinstance(n, ast.Call) and isinstance(n.func, ast.Name) and n.func.id == "reversed" and len(n.args) == 1:
+            l, t = self.iter_expr(n.args[0])
+            return "(%s).reverse" % l, t
+        if isinstance(n, ast.Call) and isinstance(n.func, ast.Name) and n.func.id == "range" and not n.keywords:
+            a = [self.e(x) for x in n.args]
+            if len(a) == 1:
+                return "(pyRange1 (0 : Int) %s)" % a[0], "Int"
+            if len(a) == 2:
+                return "(pyRange1 %s %s)" % (a[0], a[1]), "Int"
+            if len(a) == 3:
+                st = n.args[2]
+                if isinstance(st, ast.UnaryOp) and isinstance(st.op, ast.USub) and isinstance(st.operand, ast.Constant):
+                    val = -st.operand.value
+                elif isinstance(st, ast.Constant):
+                    val = st.value
+                else:
+                    val = None
+                if not isinstance(val, int) or isinstance(val, bool) or val == 0:
+                    raise NotImplementedError("range step must be a non-zero integer literal")
+                return "(pyRange %s %s %s)" % (a[0], a[1], a[2]), "Int"
+        if isinstance(n, (ast.Tuple, ast.List)) and n.elts:
+            ts = set(self.tyof(x) for x in n.elts)
+            if len(ts) != 1:
+                raise NotImplementedError("iterable literal with mixed element types")
+            t = ts.pop()
+            return "([" + ", ".join(self.e(x) for x in n.elts) + "] : List %s)" % paren(t), t
+        if isinstance(n, ast.Name) and self.lty.get(ident(n.id), "").startswith("List "):
+            t = self.lty[ident(n.id)][5:]
+            if t.startswith("(") and t.endswith(")"):
+                t = t[1:-1]
+            return ident(n.id), t
+        raise NotImplementedError("iterable " + ast.dump(n)[:100])
 
     # ---- statements ---------------------------------------------------------
     def target_names(self, t):
@@ -262,22 +866,63 @@ class Tr(object):
             return [sa[1]]
         raise NotImplementedError("assignment target " + ast.dump(t)[:80])
 
+    def is_emit(self, s):
+        """`yield e` / `self.<EFFECT>(...)` as a statement -> the emitted value's AST (tuple for calls) or None"""
+        if not isinstance(s, ast.Expr):
+            return None
+        if isinstance(s.value, ast.Yield):
+            if not self.base().startswith("gen:") or s.value.value is None:
+                raise NotImplementedError("yield in a function not declared gen:")
+            return s.value.value
+        c = s.value
+        if (isinstance(c, ast.Call) and isinstance(c.func, ast.Attribute) and isinstance(c.func.value, ast.Name)
+                and c.func.value.id == "self" and c.func.attr in EFFECTS):
+            if not self.base().startswith("calls:") or c.keywords or len(c.args) != len(calls_types(self.base())):
+                raise NotImplementedError("effect call %s with %d arguments / keywords in a function declared %s"
+                                          % (c.func.attr, len(c.args), self.ret))
+            return ast.Tuple(elts=list(c.args), ctx=ast.Load())
+        return None
+
     def assigned(self, stmts):
         out = []
+
+        def add(nm):
+            if nm not in out:
+                out.append(nm)
         for s in stmts:
             if isinstance(s, ast.Assign):
                 for t in s.targets:
                     for nm in self.target_names(t):
-                        if nm not in out:
-                            out.append(nm)
+                        add(nm)
             elif isinstance(s, ast.AugAssign):
                 for nm in self.target_names(s.target):
-                    if nm not in out:
-                        out.append(nm)
+                    add(nm)
             elif isinstance(s, ast.If):
                 for v in self.assigned(s.body) + self.assigned(s.orelse):
-                    if v not in out:
-                        out.append(v)
+                    add(v)
+            elif isinstance(s, (ast.For, ast.While)):
+                if isinstance(s, ast.For):
+                    for nm in self.target_names(s.target):
+                        add(nm)
+                for v in self.assigned(s.body) + self.assigned(s.orelse):
+                    add(v)
+            elif isinstance(s, ast.Expr) and (isinstance(s.value, ast.Yield) or self.is_emit(s) is not None):
+                add("out_")
+        return out
+
+    def definitely_assigned(self, stmts):
+        """names assigned on every path through stmts that reaches their end"""
+        out = set()
+        for s in stmts:
+            if isinstance(s, ast.Assign):
+                for t in s.targets:
+                    out.update(self.target_names(t))
+            elif isinstance(s, ast.AugAssign):
+                out.update(self.target_names(s.target))
+            elif isinstance(s, ast.If):
+                out.update(set(self.definitely_assigned(s.body)) & set(self.definitely_assigned(s.orelse)))
+            elif isinstance(s, ast.Expr) and self.is_emit(s) is not None:
+                out.add("out_")
         return out
 
     def returns(self, stmts):
@@ -286,79 +931,447 @@ class Tr(object):
             isinstance(stmts[-1], ast.If) and self.returns(stmts[-1].body) and self.returns(stmts[-1].orelse)))
 
     def has_exit(self, stmts):
-        return any(isinstance(n, (ast.Return, ast.Raise)) for s in stmts for n in ast.walk(s))
+        return any(isinstance(n, (ast.Return, ast.Raise, ast.Break, ast.Continue)) for s in stmts for n in ast.walk(s))
 
     def with_state(self, v):
         """the function's result: the returned value and the final values of the state attributes"""
+        base = self.ret[4:] if self.is_exc() else self.ret
+        if base == "none":
+            if not self.attrs:
+                return "()"
+            return self.attrs_tuple()
         return v if not self.attrs else "(" + ", ".join([v] + ["self_" + a for a in self.attrs]) + ")"
+
+    def attrs_tuple(self):
+        vs = ["self_" + a for a in self.attrs]
+        return vs[0] if len(vs) == 1 else "(" + ", ".join(vs) + ")"
 
     def ret_value(self, v):
         """`return v`"""
-        if self.ret == "bool":
-            return self.with_state(self.b(v))
-        if self.ret != "exc_int":
+        if self.is_stream():
+            if v is not None:
+                raise NotImplementedError("return with a value in a generator")
+            return "(Except.ok out_)" if self.is_exc() else "out_"
+        base = self.ret[4:] if self.is_exc() else self.ret
+        if v is None or (isinstance(v, ast.Constant) and v.value is None):
+            if base != "none":
+                raise NotImplementedError("return None in a function declared " + self.ret)
+            r = self.with_state("()")
+            return "(Except.ok %s)" % r if self.is_exc() else r
+        if base == "none":
+            raise NotImplementedError("return of a value in a function declared " + self.ret)
+        if base == "bool":
+            r = self.with_state(self.b(v))
+            return "(Except.ok %s)" % r if self.is_exc() else r
+        if not self.is_exc():
             return self.with_state(self.e(v))
         # Cls(e) / cls(e): lookup of an IntEnum member by value
         if (isinstance(v, ast.Call) and isinstance(v.func, ast.Name) and len(v.args) == 1 and not v.keywords
-                and (v.func.id in self.enums or (v.func.id == "cls" and self.is_classmethod and self.cls in self.enums))):
-            vals = self.enums[self.cls if v.func.id == "cls" else v.func.id]
+                and (v.func.id in self.local_enums
+                     or (v.func.id == "cls" and self.is_classmethod and self.cls in self.local_enums))):
+            vals = self.local_enums[self.cls if v.func.id == "cls" else v.func.id]
             x = self.e(v.args[0])
             return "(let v : Int := %s; if (%s : List Int).contains v then Except.ok v else Except.error \"ValueError\")" % (
                 x, "[" + ", ".join(str(i) for i in vals) + "]")
         # D[key]
         if isinstance(v, ast.Subscript) and isinstance(v.value, ast.Name) and v.value.id in SUBSCRIPT_DICTS:
-            return "(match %s.lookup %s with | some v => Except.ok ((v : Nat) : Int) | none => Except.error \"KeyError\")" % (
-                SUBSCRIPT_DICTS[v.value.id], self.e(v.slice))
-        return "(Except.ok %s)" % self.e(v)
+            lean, val, vt = SUBSCRIPT_DICTS[v.value.id]
+            if vt != base:
+                raise NotImplementedError("%s[...] : %s returned from a function declared %s" % (v.value.id, vt, self.ret))
+            key = self.e(v.slice)
+            look = "%s.lookup %s" % (lean, key)
+            if v.value.id in NAT_KEYED:
+                look = "(if %s < 0 then none else %s.lookup (%s).toNat)" % (key, lean, key)
+            return "(match %s with | some v => Except.ok %s | none => Except.error \"KeyError\")" % (look, val)
+        # Cls(...) for a listed class: the tuple of its integer arguments
+        if (isinstance(v, ast.Call) and isinstance(v.func, ast.Name) and v.func.id in CONSTRUCTORS
+                and not v.keywords and v.func.id in self.classes):
+            keep = CONSTRUCTORS[v.func.id]
+            if max(keep) >= len(v.args):
+                raise NotImplementedError("constructor %s with %d arguments" % (v.func.id, len(v.args)))
+            return "(Except.ok %s)" % self.with_state("(" + ", ".join(self.e(v.args[i]) for i in keep) + ")")
+        return "(Except.ok %s)" % self.with_state(self.e(v))
+
+    def raise_value(self, s):
+        exc = s.exc.func if isinstance(s.exc, ast.Call) else s.exc
+        if not self.is_exc() or not isinstance(exc, ast.Name) or s.cause is not None:
+            raise NotImplementedError("raise in a function not declared exc: / raise of a non-name")
+        return "(Except.error \"%s\")" % exc.id
+
+    def exit_with(self, result):
+        """leave the function with `result` (a Lean expression of the function's result type) from here"""
+        if not self.loops:
+            return result
+        return self.loops[-1].tuple("true", "(some %s)" % result)
+
+    def wrap_pending(self, pad, text):
+        """put the raising sub-expressions collected while translating a statement in front of it"""
+        pend, self.pending = self.pending, []
+        for t, ex in reversed(pend):
+            text = "%smatch %s with\n%s| Except.error e_ => %s\n%s| Except.ok %s =>\n%s" % (
+                pad, ex, pad, self.exit_with("(Except.error e_)"), pad, t, text)
+        return text
+
+    def seq(self, pad, text, rest, ind, tail):
+        """`text` (one translated statement, its raising sub-expressions pending) followed by the rest"""
+        mine, self.pending = self.pending, []
+        text += self.block(rest, ind, tail)
+        self.pending = mine
+        return self.wrap_pending(pad, text)
+
+    def bind(self, names, ty=None):
+        for nm, t in zip(names, ty or ["Int"] * len(names)):
+            self.lty[nm] = t
 
     def block(self, stmts, ind, tail=None):
         """stmts followed by the expression `tail` (or ending in return)"""
         pad = "  " * ind
         if not stmts:
             if tail is None:
-                raise NotImplementedError("function does not end in return")
+                if self.fn_tail is None:
+                    raise NotImplementedError("function does not end in return")
+                return pad + self.fn_tail()
             return pad + tail
         s, rest = stmts[0], stmts[1:]
         if isinstance(s, ast.Expr) and isinstance(s.value, ast.Constant):
             return self.block(rest, ind, tail)          # docstring
-        if isinstance(s, ast.Assert):
+        if isinstance(s, ast.Pass):
             return self.block(rest, ind, tail)
+        if isinstance(s, ast.FunctionDef):
+            # a nested `def f(x, ...): return e` (no defaults, no decorators): calls are expanded in place
+            body = [x for x in s.body if not (isinstance(x, ast.Expr) and isinstance(x.value, ast.Constant))]
+            a = s.args
+            if (s.decorator_list or a.vararg or a.kwarg or a.kwonlyargs or a.defaults or len(body) != 1
+                    or not isinstance(body[0], ast.Return) or body[0].value is None):
+                raise NotImplementedError("nested function %s is not of the form `def f(x): return e`" % s.name)
+            free = set(n.id for n in ast.walk(body[0].value) if isinstance(n, ast.Name)) - set(x.arg for x in a.args)
+            if any(ident(v) in self.assigned_anywhere for v in free):
+                raise NotImplementedError("nested function %s reads a variable of the enclosing function" % s.name)
+            self.localfns[s.name] = ([x.arg for x in a.args], body[0].value)
+            return self.block(rest, ind, tail)
+        if isinstance(s, ast.Assert):
+            if not self.is_exc():
+                return self.block(rest, ind, tail)
+            c = self.p(s.test)
+            mine, self.pending = self.pending, []
+            text = "%sif %s then\n%s\n%selse\n%s  %s" % (pad, c, self.block(rest, ind + 1, tail), pad, pad,
+                                                       self.exit_with("(Except.error \"AssertionError\")"))
+            self.pending = mine
+            return self.wrap_pending(pad, text)
+        em = self.is_emit(s)
+        if em is not None:
+            v = self.e(em)
+            text = "%slet out_ : %s := out_ ++ [%s]\n" % (pad, self.lty["out_"], v)
+            return self.seq(pad, text, rest, ind, tail)
+        if isinstance(s, (ast.Break, ast.Continue)):
+            if not self.loops:
+                raise NotImplementedError("break / continue outside a loop")
+            return pad + self.loops[-1].tuple("true" if isinstance(s, ast.Break) else "false")
         if isinstance(s, ast.Return):
-            if tail is not None or s.value is None:
+            if tail is not None and not self.loops:
                 raise NotImplementedError("return in this position")
-            return pad + self.ret_value(s.value)
+            v = self.ret_value(s.value)
+            return self.wrap_pending(pad, pad + self.exit_with(v))
         if isinstance(s, ast.Raise):
-            exc = s.exc.func if isinstance(s.exc, ast.Call) else s.exc
-            if tail is not None or self.ret != "exc_int" or not isinstance(exc, ast.Name) or s.cause is not None:
-                raise NotImplementedError("raise in this position / function not declared exc_int")
-            return pad + "(Except.error \"%s\")" % exc.id
+            if tail is not None and not self.loops:
+                raise NotImplementedError("raise in this position")
+            return pad + self.exit_with(self.raise_value(s))
         if isinstance(s, ast.Assign) and len(s.targets) == 1:
             t = s.targets[0]
             names = self.target_names(t)
             pat = names[0] if len(names) == 1 else "(" + ", ".join(names) + ")"
-            ty = " : Int" if len(names) == 1 and not isinstance(s.value, ast.Tuple) else ""
-            return "%slet %s%s := %s\n%s" % (pad, pat, ty, self.e(s.value), self.block(rest, ind, tail))
+            vty = self.tyof(s.value)
+            ty = " : " + vty if len(names) == 1 and not isinstance(s.value, ast.Tuple) else ""
+            val = self.call_arg(s.value, None)
+            if len(names) == 1:
+                self.bind(names, [vty])
+            else:
+                cs = components(vty)
+                if len(cs) != len(names) or any(c != "Int" for c in cs):
+                    raise NotImplementedError("unpacking %s into %d names" % (vty, len(names)))
+                self.bind(names, cs)
+            text = "%slet %s%s := %s\n" % (pad, pat, ty, val)
+            return self.seq(pad, text, rest, ind, tail)
         if isinstance(s, ast.AugAssign):
             names = self.target_names(s.target)
             if len(names) != 1:
                 raise NotImplementedError("augmented assignment " + ast.dump(s)[:80])
-            v = ast.BinOp(left=s.target, op=s.op, right=s.value)
-            return "%slet %s : Int := %s\n%s" % (pad, names[0], self.e(v), self.block(rest, ind, tail))
+            tgt = ast.Attribute(value=s.target.value, attr=s.target.attr, ctx=ast.Load()) \
+                if isinstance(s.target, ast.Attribute) else ast.Name(id=s.target.id, ctx=ast.Load())
+            v = ast.BinOp(left=tgt, op=s.op, right=s.value)
+            val = self.e(v)
+            self.bind(names)
+            text = "%slet %s : Int := %s\n" % (pad, names[0], val)
+            return self.seq(pad, text, rest, ind, tail)
         if isinstance(s, ast.If):
-            if tail is None and self.returns(s.body) and (self.returns(s.orelse) or not s.orelse):
-                return "%sif %s then\n%s\n%selse\n%s" % (pad, self.p(s.test), self.block(s.body, ind + 1),
-                                                       pad, self.block(s.orelse if s.orelse else rest, ind + 1))
-            if self.has_exit([s]):
-                raise NotImplementedError("return/raise inside an `if` that does not end every path")
-            vs = self.assigned([s])
-            tup = vs[0] if len(vs) == 1 else "(" + ", ".join(vs) + ")"
-            return "%slet %s := (if %s then\n%s\n%s  else\n%s)\n%s" % (
-                pad, tup, self.p(s.test), self.block(s.body, ind + 2, tup), pad,
-                self.block(s.orelse, ind + 2, tup), self.block(rest, ind, tail))
+            return self.if_stmt(s, rest, ind, tail)
+        if isinstance(s, ast.For):
+            return self.for_stmt(s, rest, ind, tail)
+        if isinstance(s, ast.While):
+            return self.while_stmt(s, rest, ind, tail)
         raise NotImplementedError(ast.dump(s)[:120])
 
+    def if_stmt(self, s, rest, ind, tail):
+        pad = "  " * ind
+        nt = self.none_test(s.test)
+        saved_l, saved_n = dict(self.lty), dict(self.narrow)
 
-def int_enums(tree):
+        def branch(stmts, narrowed, i, t):
+            self.lty, self.narrow = dict(saved_l), dict(saved_n)
+            if narrowed:
+                self.narrow[nt[1]] = self.opt_expr(s.test.left)[2]
+            return self.block(stmts, i, t)
+
+        def head(a, b, pad2):
+            """if / match around the two translated branches"""
+            if nt is None:
+                return "if %s then\n%s\n%selse\n%s" % (cond, a, pad2, b)
+            name = self.opt_expr(s.test.left)[2]
+            if nt[2]:
+                return "match %s with\n%s| none =>\n%s\n%s| some %s =>\n%s" % (nt[0], pad2, a, pad2, name, b)
+            return "match %s with\n%s| some %s =>\n%s\n%s| none =>\n%s" % (nt[0], pad2, name, a, pad2, b)
+
+        cond = None if nt is not None else self.p(s.test)
+        my_pending, self.pending = self.pending, []
+        then_narrow = nt is not None and not nt[2]
+        else_narrow = nt is not None and nt[2]
+        if self.has_exit([s]):
+            if tail is None and not self.loops and self.returns(s.body) and (self.returns(s.orelse) or not s.orelse):
+                a = branch(s.body, then_narrow, ind + 1, None)
+                b = branch(s.orelse if s.orelse else rest, else_narrow, ind + 1, None)
+            else:
+                # an exit on some path: the continuation is duplicated into both branches
+                a = branch(s.body + rest, then_narrow, ind + 1, tail)
+                b = branch(s.orelse + rest, else_narrow, ind + 1, tail)
+            self.pending = my_pending
+            return self.wrap_pending(pad, pad + head(a, b, pad))
+        # no exit: both branches produce the tuple of the variables they assign
+        da = self.definitely_assigned(s.body) & self.definitely_assigned(s.orelse)
+        vs = [v for v in self.assigned([s]) if v in saved_l or v in da]
+        if not vs:
+            raise NotImplementedError("`if` without effect")
+        tup = vs[0] if len(vs) == 1 else "(" + ", ".join(vs) + ")"
+        a = branch(s.body, then_narrow, ind + 2, tup)
+        tys_a = dict(self.lty)
+        b = branch(s.orelse, else_narrow, ind + 2, tup)
+        tys_b = dict(self.lty)
+        self.lty, self.narrow = dict(saved_l), dict(saved_n)
+        for v in vs:
+            ta, tb = tys_a.get(v, saved_l.get(v)), tys_b.get(v, saved_l.get(v))
+            if ta != tb:
+                raise NotImplementedError("variable %s has different types in the branches of an if" % v)
+            self.lty[v] = ta
+        if nt is None:
+            text = "%slet %s := (if %s then\n%s\n%s  else\n%s)\n" % (pad, tup, cond, a, pad, b)
+        else:
+            text = "%slet %s := (%s)\n" % (pad, tup, head(a, b, pad + "  "))
+        text += self.block(rest, ind, tail)
+        self.pending = my_pending
+        return self.wrap_pending(pad, text)
+
+    def loop_info(self, s):
+        """(has break/continue-as-break flag, has return/raise) of a loop statement"""
+        own = list(walk_no_nested_loops(s.body))
+        def forever(w):
+            return isinstance(w.test, ast.Constant) and w.test.value is True
+        has_ret = any(isinstance(n, (ast.Return, ast.Raise)) or (isinstance(n, ast.Assert) and self.is_exc())
+                      or (isinstance(n, ast.While) and not forever(n))      # its fuel may run out
+                      for x in s.body for n in ast.walk(x))
+        has_ret = has_ret or self.has_raising(s.body + ([s.test] if isinstance(s, ast.While) else []))
+        has_brk = has_ret or any(isinstance(n, ast.Break) for n in own)
+        return has_brk, has_ret
+
+    def used_outside(self, name, s):
+        """is the Python variable `name` read anywhere in the function outside the loop statement `s`?"""
+        inside = set(id(n) for n in ast.walk(s))
+        return any(isinstance(n, ast.Name) and n.id == name and isinstance(n.ctx, ast.Load) and id(n) not in inside
+                   for n in ast.walk(self.fn))
+
+    def state_setup(self, s, extra_first=()):
+        """state components of a loop: flags, then variables that exist before the loop and are assigned in it"""
+        has_brk, has_ret = self.loop_info(s)
+        body_assigned = self.assigned(s.body)
+        vars_ = [v for v in list(extra_first) + body_assigned if v in self.lty]
+        seen, vs = set(), []
+        for v in vars_:
+            if v not in seen:
+                seen.add(v)
+                vs.append(v)
+        comps = (["brk_"] if has_brk else []) + (["ret_"] if has_ret else []) + vs
+        tys = [("Bool" if c == "brk_" else "Option (%s)" % self.full_ret_ty if c == "ret_" else self.lty[c]) for c in comps]
+        return has_brk, has_ret, comps, tys
+
+    def unpack(self, pad, st, comps, tys, skip=()):
+        """bind the components of the loop state `st` (an expression) to their names: a `match` on the tuple
+        (so that no sub-term is duplicated when a proof unfolds the definition)"""
+        if len(comps) == 1:
+            return "" if comps[0] in skip else "%slet %s : %s := %s\n" % (pad, comps[0], tys[0], st)
+        pat = ", ".join("_" if c in skip else c for c in comps)
+        return "%smatch %s with\n%s| (%s) =>\n" % (pad, st, pad, pat)
+
+    def after_loop(self, pad, ind, st, comps, tys, has_brk, has_ret, orelse, rest, tail):
+        """code after a loop whose final state is bound to `st`"""
+        text = self.unpack(pad, st, comps, tys, skip=() if (orelse and has_brk) else ("brk_",))
+        cont = rest
+        if has_ret:
+            a = pad + "  " + (self.loops[-1].tuple("true", "(some r_)") if self.loops else "r_")
+            if orelse and has_brk:
+                b = "%s  if brk_ = true then\n%s\n%s  else\n%s" % (
+                    pad, self.block(cont, ind + 2, tail), pad, self.block(orelse + cont, ind + 2, tail))
+            else:
+                b = self.block(orelse + cont, ind + 1, tail)
+            return text + "%smatch ret_ with\n%s| some r_ =>\n%s\n%s| none =>\n%s" % (pad, pad, a, pad, b)
+        if orelse and has_brk:
+            saved = dict(self.lty)
+            a = self.block(cont, ind + 1, tail)
+            self.lty = dict(saved)
+            b = self.block(orelse + cont, ind + 1, tail)
+            return text + "%sif brk_ = true then\n%s\n%selse\n%s" % (pad, a, pad, b)
+        return text + self.block(orelse + cont, ind, tail)
+
+    def captured(self, scope, comps, text):
+        """variables of the enclosing scope that the translated loop body `text` mentions (parameters of its definition)"""
+        return [v for v in scope if v not in comps
+                and re.search(r"(?<![\w.])%s(?![\w])" % re.escape(v), text)]
+
+    def new_loop(self, s):
+        self.nloops += 1
+        return "%s_loop%d" % (self.lean_fn, self.nloops)
+
+    def for_stmt(self, s, rest, ind, tail):
+        """`for` loop: the loop body becomes a definition `<f>_loop<k> <captured variables> st_ it_` of its own
+        (so that companion proofs can talk about it), the loop is `List.foldl` of it"""
+        pad = "  " * ind
+        if self.narrow:
+            raise NotImplementedError("loop inside a branch that narrows an optional")
+        name = self.new_loop(s)
+        lst, ety = self.iter_expr(s.iter)
+        my_pending, self.pending = self.pending, []
+        if isinstance(s.target, ast.Name):
+            tnames = [s.target.id]
+        elif isinstance(s.target, ast.Tuple) and all(isinstance(x, ast.Name) for x in s.target.elts):
+            tnames = [x.id for x in s.target.elts]
+        else:
+            raise NotImplementedError("loop target " + ast.dump(s.target)[:80])
+        ecs = components(ety) if len(tnames) > 1 else [ety]
+        if len(ecs) != len(tnames):
+            raise NotImplementedError("loop target does not match the element type " + ety)
+        # loop variables that live on after the loop (or existed before): part of the state
+        leaked, guard = [], False
+        for nm, t in zip(tnames, ecs):
+            if nm == "_":
+                continue
+            if ident(nm) in self.lty:
+                leaked.append(ident(nm))
+            elif self.used_outside(nm, s):
+                if t != "Int" or not self.is_exc() or self.loops:
+                    raise NotImplementedError("loop variable %s is read after the loop" % nm)
+                leaked.append(ident(nm))
+                guard = True
+        pre = ""
+        if guard:
+            for nm in leaked:
+                if nm not in self.lty:
+                    pre += "%slet %s : Int := (0 : Int)\n" % (pad, nm)
+                    self.lty[nm] = "Int"
+        has_brk, has_ret, comps, tys = self.state_setup(s, extra_first=leaked)
+        if not comps:
+            raise NotImplementedError("loop without effect")
+        sty = prod(tys)
+        init = Loop(comps).tuple("false", "(none : Option (%s))" % self.full_ret_ty)
+        saved = dict(self.lty)
+        self.loops.append(Loop(comps))
+        body = self.unpack("  ", "st_", comps, tys, skip=("ret_",) if has_ret else ())
+        if has_brk:
+            body += "  if brk_ = true then st_ else\n"
+        # bind the loop variables
+        if len(tnames) == 1:
+            if tnames[0] != "_":
+                body += "  let %s : %s := it_\n" % (ident(tnames[0]), ety)
+                self.lty[ident(tnames[0])] = ety
+        else:
+            for i, (nm, t) in enumerate(zip(tnames, ecs)):
+                if nm != "_":
+                    body += "  let %s : %s := %s\n" % (ident(nm), t, proj("it_", i, len(tnames)))
+                    self.lty[ident(nm)] = t
+        body += self.block(s.body, 1, self.loops[-1].tuple("false"))
+        self.loops.pop()
+        self.lty = saved
+        caps = self.captured(saved, comps, body)
+        self.aux.append("/-- body of the `for` loop at line %d of `%s` -/\ndef %s %s(st_ : %s) (it_ : %s) : %s :=\n%s\n" % (
+            s.lineno - self.fn.lineno + 1, self.qual, name, "".join("(%s : %s) " % (v, saved[v]) for v in caps),
+            sty, ety, sty, body))
+        text = pre
+        if guard:
+            text += "%slet l_ : List %s := %s\n" % (pad, paren(ety), lst)
+            lst = "l_"
+            text += "%sif %s.isEmpty = true then %s else\n" % (pad, lst, self.exit_with("(Except.error \"UnboundLocalError\")"))
+        fold = "(List.foldl (%s) %s %s)" % (" ".join([name] + caps), init, lst)
+        text += self.after_loop(pad, ind, fold, comps, tys, has_brk, has_ret, s.orelse, rest, tail)
+        self.pending = my_pending
+        return self.wrap_pending(pad, text)
+
+    def while_stmt(self, s, rest, ind, tail):
+        """`while` loop: condition and body become definitions `<f>_loop<k>_cond`, `<f>_loop<k>`; the loop is
+        `pyWhile cond body fuel init`"""
+        pad = "  " * ind
+        if self.narrow:
+            raise NotImplementedError("loop inside a branch that narrows an optional")
+        name = self.new_loop(s)
+        has_brk, has_ret, comps, tys = self.state_setup(s)
+        if not comps:
+            raise NotImplementedError("loop without effect")
+        sty = prod(tys)
+        init = Loop(comps).tuple("false", "(none : Option (%s))" % self.full_ret_ty)
+        forever = isinstance(s.test, ast.Constant) and s.test.value is True
+        self.uses_fuel = True
+        saved = dict(self.lty)
+        where = "at line %d of `%s`" % (s.lineno - self.fn.lineno + 1, self.qual)
+        if forever and not has_brk:
+            # an infinite loop: only meaningful in a generator, observed through its first `fuel` iterations
+            if not self.base().startswith("gen:") or rest or s.orelse or self.loops:
+                raise NotImplementedError("`while True` without break outside a generator / followed by code")
+            self.loops.append(Loop(comps))
+            body = self.unpack("  ", "st_", comps, tys) + self.block(s.body, 1, self.loops[-1].tuple())
+            self.loops.pop()
+            self.lty = saved
+            caps = self.captured(saved, comps, body)
+            self.aux.append("/-- body of the `while True` loop %s -/\ndef %s %s(st_ : %s) (_ : Nat) : %s :=\n%s\n" % (
+                where, name, "".join("(%s : %s) " % (v, saved[v]) for v in caps), sty, sty, body))
+            fold = "(List.foldl (%s) %s (List.range fuel))" % (" ".join([name] + caps), init)
+            return self.unpack(pad, fold, comps, tys) + self.block([], ind, tail)
+        if not self.is_exc():
+            raise NotImplementedError("a while loop in a function not declared exc: (fuel may run out)")
+        raising_cond = not forever and self.has_raising([s.test])
+        self.loops.append(Loop(comps))
+        if raising_cond:
+            # the condition can raise: it is evaluated at the start of the body (`while True: if not c: break; ...`)
+            c = "true"
+            head = "  match %s with\n  | Except.error e_ => %s\n  | Except.ok false => %s\n  | Except.ok true =>\n" % (
+                self.pexc(s.test), self.exit_with("(Except.error e_)"), self.loops[-1].tuple("true"))
+        else:
+            self.cond_depth += 1
+            c = "true" if forever else self.b(s.test)
+            self.cond_depth -= 1
+            head = ""
+        cond = self.unpack("  ", "st_", comps, tys, skip=("ret_",)) + "  " + (("(!brk_ && %s)" % c) if has_brk else c)
+        body = self.unpack("  ", "st_", comps, tys, skip=("ret_", "brk_")) + head + self.block(s.body, 1, self.loops[-1].tuple("false"))
+        self.loops.pop()
+        self.lty = saved
+        ccaps = self.captured(saved, comps, cond)
+        caps = self.captured(saved, comps, body)
+        self.aux.append("/-- condition of the `while` loop %s -/\ndef %s_cond %s(st_ : %s) : Bool :=\n%s\n" % (
+            where, name, "".join("(%s : %s) " % (v, saved[v]) for v in ccaps), sty, cond))
+        self.aux.append("/-- body of the `while` loop %s -/\ndef %s %s(st_ : %s) : %s :=\n%s\n" % (
+            where, name, "".join("(%s : %s) " % (v, saved[v]) for v in caps), sty, sty, body))
+        fuel_exit = self.exit_with("(Except.error \"fuel\")")
+        text = "%smatch pyWhile (%s) (%s) fuel %s with\n%s| none => %s\n%s| some st_ =>\n" % (
+            pad, " ".join([name + "_cond"] + ccaps), " ".join([name] + caps), init, pad, fuel_exit, pad)
+        text += self.after_loop(pad + "  ", ind + 1, "st_", comps, tys, has_brk, has_ret, s.orelse, rest, tail)
+        return self.wrap_pending(pad, text)
+
+
+def int_enums(tree, values_only=True):
     """IntEnum classes of a file: name -> member values (every member must be `name = <int literal>`)"""
     out = {}
     for c in ast.walk(tree):
@@ -367,16 +1380,36 @@ def int_enums(tree):
         if not any((isinstance(b, ast.Name) and b.id == "IntEnum") or (isinstance(b, ast.Attribute) and b.attr == "IntEnum")
                    for b in c.bases):
             continue
-        vals, ok = [], True
+        vals, names, ok = [], {}, True
         for n in c.body:
             if isinstance(n, ast.Assign):
                 if (len(n.targets) == 1 and isinstance(n.targets[0], ast.Name) and isinstance(n.value, ast.Constant)
                         and isinstance(n.value.value, int) and not isinstance(n.value.value, bool)):
                     vals.append(n.value.value)
+                    names[n.targets[0].id] = n.value.value
                 else:
                     ok = False
         if ok and vals:
-            out[c.name] = vals
+            out[c.name] = vals if values_only else names
+    return out
+
+
+def visible_enums(repo, rel, tree):
+    """IntEnum classes usable as `Enum.member` in a file: its own and those imported by
+    `from <module of the repo> import Name` (no aliases): name -> {member: value}"""
+    out = dict(int_enums(tree, values_only=False))
+    pkg = os.path.dirname(rel).split("/")
+    for n in tree.body:
+        if not isinstance(n, ast.ImportFrom) or n.module is None:
+            continue
+        parts = (pkg[:len(pkg) - (n.level - 1)] if n.level else []) + n.module.split(".")
+        path = os.path.join(repo, *parts) + ".py"
+        if not os.path.exists(path):
+            continue
+        en = int_enums(ast.parse(open(path).read()), values_only=False)
+        for a in n.names:
+            if a.asname is None and a.name in en:
+                out[a.name] = en[a.name]
     return out
 
 
@@ -399,10 +1432,13 @@ def find_def(tree, rel, qual):
 
 
 def translate(repo, rel, fname, ptypes, ret, done=None):
+    if ret == "exc_int":
+        ret = "exc:int"
     tree = ast.parse(open(os.path.join(repo, rel)).read())
     fn, cls = find_def(tree, rel, fname)
     decos = [d.id for d in fn.decorator_list if isinstance(d, ast.Name)]
-    if len(decos) != len(fn.decorator_list) or any(d not in ("property", "classmethod", "staticmethod") for d in decos):
+    if len(decos) != len(fn.decorator_list) or any(
+            d not in ("property", "classmethod", "staticmethod") + GUARDS for d in decos):
         raise NotImplementedError("%s: decorators" % fname)
     a = fn.args
     if a.vararg or a.kwarg or a.kwonlyargs or getattr(a, "posonlyargs", []):
@@ -415,35 +1451,136 @@ def translate(repo, rel, fname, ptypes, ret, done=None):
         params = params[1:]
     if len(params) != len(ptypes):
         raise NotImplementedError("%s: parameters %r" % (fname, params))
-    enums = int_enums(tree)
-    attrs, types, sig = [], {}, []
+    local_enums = int_enums(tree)
+    attrs, aty, types, sig, recs, lty, skipped = [], [], {}, [], {}, {}, []
     for p, t in zip(params, ptypes):
         if t.startswith("obj:"):
             if p != "self" or attrs:
                 raise NotImplementedError("%s: obj parameter %s" % (fname, p))
-            attrs = t[4:].split(",")
+            main, _, skip = t[4:].partition(";skip:")
+            skipped = [x for x in skip.split(",") if x]
+            spec = [x for x in main.split(",") if x]
+            attrs = [x.split(":")[0] for x in spec]
+            aty = ["Bool" if x.endswith(":b") else "Int" for x in spec]
             types[p] = "obj"
-            sig += ["(self_%s : Int)" % x for x in attrs]
+            sig += ["(self_%s : %s)" % (x, ty_) for x, ty_ in zip(attrs, aty)]
+            for x, ty_ in zip(attrs, aty):
+                lty["self_" + x] = ty_
+        elif t == "ignored":
+            types[p] = "ignored"       # a parameter the body must not read (e.g. a parent object that is only stored)
         else:
-            if p == "self" and not (t == "int" and cls in enums):
+            if p == "self" and not (t == "int" and cls in local_enums):
                 raise NotImplementedError("%s: self : %s outside an IntEnum class" % (fname, t))
             types[p] = t
-            sig.append("(%s : %s)" % (ident(p), LEAN_TY[t]))
-    tr = Tr(types, cls=cls, enums=enums, done=done, attrs=attrs)
+            sig.append("(%s : %s)" % (ident(p), lean_ty(t)))
+            lty[ident(p)] = lean_ty(t)
+            if t.startswith("list:rec:"):
+                types[p] = "list"
+    tr = Tr(types, cls=cls, enums=visible_enums(repo, rel, tree), done=done, attrs=attrs, recs=recs)
+    tr.local_enums = local_enums
+    tr.obj_spec = next((t for t in ptypes if t.startswith("obj:")), None)
+    tr.lty = lty
     tr.ret = ret
+    tr.fn = fn
+    tr.qual = fname
+    tr.lean_fn = lean_name(fname)
+    tr.lty["fuel"] = "Nat"            # the extra parameter of functions with `while` loops
     tr.is_classmethod = is_classmethod
-    body = tr.block(fn.body, 1)
-    rty = LEAN_TY[ret] if not attrs else " × ".join([LEAN_TY[ret]] + ["Int"] * len(attrs))
-    return "/-- generated from `%s:%s` -/\ndef %s %s : %s :=\n%s\n" % (rel, fname, lean_name(fname), " ".join(sig), rty, body)
+    tr.classes = set(n.name for n in tree.body if isinstance(n, ast.ClassDef))
+    tr.imports_sqrt = any(isinstance(n, ast.ImportFrom) and n.module == "math" and any(
+        al.name == "sqrt" and al.asname is None for al in n.names) for n in tree.body)
+    tr.rec_elems = dict((ident(p), t[9:].split(",")) for p, t in zip(params, ptypes) if t.startswith("list:rec:"))
+    tr.assigned_anywhere = set()
+    for n in ast.walk(fn):
+        if isinstance(n, (ast.Assign, ast.AugAssign, ast.For)):
+            for t in (n.targets if isinstance(n, ast.Assign) else [n.target]):
+                for x in ast.walk(t):
+                    if isinstance(x, ast.Name):
+                        tr.assigned_anywhere.add(ident(x.id))
+    base = ret[4:] if ret.startswith("exc:") else ret
+    stream = base.startswith(("gen:", "calls:"))
+    if stream:
+        rty = lean_ty(base)
+        if any(tr_assigns_attr(n) for n in ast.walk(fn)):
+            raise NotImplementedError("a generator / effect function that assigns attributes of self")
+    elif base == "none":
+        rty = prod(aty) if attrs else "Unit"
+    else:
+        rty = lean_ty(base) if not attrs else prod([lean_ty(base)] + aty)
+    if ret.startswith("exc:"):
+        rty = "Except String " + paren(rty)
+    tr.full_ret_ty = rty
+    # what falling off the end of the function means
+    if stream:
+        tr.lty["out_"] = lean_ty(base)
+        tr.fn_tail = lambda: tr.ret_value(None)
+    elif base == "none":
+        tr.fn_tail = lambda: tr.ret_value(None)
+    else:
+        tr.fn_tail = None
+    # assigning state: `self.x = e` where x is ignored-typed parameter's storage (`self._parent = parent`) is dropped
+    body_stmts = drop_skipped([s for s in fn.body if not is_ignored_store(s, types)], skipped)
+    # record-typed loop variables: `for entry in entries` binds a record
+    orig_for = tr.for_stmt
+
+    def for_stmt(s, rest, ind, tail):
+        if isinstance(s.iter, ast.Name) and ident(s.iter.id) in tr.rec_elems and isinstance(s.target, ast.Name):
+            tr.recs[ident(s.target.id)] = tr.rec_elems[ident(s.iter.id)]
+        return orig_for(s, rest, ind, tail)
+    tr.for_stmt = for_stmt
+    body = tr.block(body_stmts, 1)
+    if stream:
+        body = "  let out_ : %s := []\n" % lean_ty(base) + body
+    if tr.uses_fuel:
+        sig.append("(fuel : Nat)")
+    assigns_state = any(tr_assigns_attr(n) for n in ast.walk(fn))
+    return ("\n".join(tr.aux + [""])[:-1 if not tr.aux else None] + "/-- generated from `%s:%s` -/\ndef %s %s : %s :=\n%s\n" % (
+        rel, fname, lean_name(fname), " ".join(sig), rty, body), assigns_state)
+
+
+def tr_assigns_attr(n):
+    if isinstance(n, (ast.Assign, ast.AugAssign)):
+        ts = n.targets if isinstance(n, ast.Assign) else [n.target]
+        return any(isinstance(t, ast.Attribute) and isinstance(t.value, ast.Name) and t.value.id == "self" for t in ts)
+    return False
+
+
+def drop_skipped(stmts, skipped):
+    """remove the stores `self.<a> = ...` of attributes declared `skip:` (objects that are not modelled; reading
+    such an attribute is unsupported anyway) and `if` statements that contain nothing else"""
+    if not skipped:
+        return stmts
+    out = []
+    for s in stmts:
+        if (isinstance(s, ast.Assign) and len(s.targets) == 1 and isinstance(s.targets[0], ast.Attribute)
+                and isinstance(s.targets[0].value, ast.Name) and s.targets[0].value.id == "self"
+                and s.targets[0].attr in skipped):
+            continue
+        if isinstance(s, ast.If):
+            body, orelse = drop_skipped(s.body, skipped), drop_skipped(s.orelse, skipped)
+            if not body and not orelse:
+                continue
+            s = ast.If(test=s.test, body=body or [ast.Pass()], orelse=orelse)
+        out.append(s)
+    return out
+
+
+def is_ignored_store(s, types):
+    """`self.<anything> = <ignored parameter>` / `self.closed = False`-like stores of non-integer state that the
+    declared integer state does not include are NOT dropped silently - only the store of an `ignored` parameter is"""
+    return (isinstance(s, ast.Assign) and len(s.targets) == 1 and isinstance(s.targets[0], ast.Attribute)
+            and isinstance(s.value, ast.Name) and types.get(s.value.id) == "ignored")
 
 
 def gen_pyfun(repo):
-    s = HEADER + "import Mathlib.Data.Int.Bitwise\nimport RigModel.Gen.Spinn5\nimport RigModel.Gen.Links\nnamespace Rig.Gen.PyFun\n\n"
+    s = HEADER + "import Mathlib.Data.Int.Bitwise\nimport RigModel.Gen.Spinn5\nimport RigModel.Gen.Links\nset_option linter.unusedVariables false\nnamespace Rig.Gen.PyFun\n\n"
+    s += PRELUDE
     done = {}
     for rel, fname, ptypes, ret in FUNCS:
         try:
-            s += translate(repo, rel, fname, ptypes, ret, done) + "\n"
-            done[fname] = ret
+            text, assigns = translate(repo, rel, fname, ptypes, ret, done)
+            s += text + "\n"
+            done[fname] = ("exc:int" if ret == "exc_int" else ret, list(ptypes), assigns)
         except Exception as e:      # noqa
             # The function no longer fits the translated subset (or vanished).  Its definition is
             # omitted, so exactly the companion modules that prove something about it stop building
